@@ -106,17 +106,19 @@ func ParseCase(lines []string) (Case, error) {
 }
 
 type Run struct {
-	Lines     []string
-	Obs       []string
-	Failures  []string
-	Err       string
-	Pushes    int
-	Replies   int
-	Syncs     int
-	CliMuts   int
-	Cuts      int
-	SyncDrops int
-	Reorders  int
+	Lines           []string
+	Obs             []string
+	Failures        []string
+	Err             string
+	Pushes          int
+	Replies         int
+	Syncs           int
+	CliMuts         int
+	Cuts            int
+	SyncDrops       int
+	SyncWindows     int
+	QuiescentChecks int
+	Reorders        int
 }
 
 type msgRec struct {
@@ -148,6 +150,10 @@ type harness struct {
 	down         bool // the connection is cut: hook events are ignored, changes still recorded
 	txAccepted   bool // the last of them was accepted
 	syncOut      bool // a full sync has been executed by the server and not applied by the client yet
+	// the next full sync is parked on the server after its answer has been computed
+	holdSyncNext bool
+	heldSync     chan struct{}
+	syncParked   chan struct{}
 }
 
 type srcTracer struct {
@@ -339,13 +345,29 @@ func (h *harness) point(id string) {
 		h.mu.Unlock()
 	case "srv:sync":
 		h.mu.Lock()
+		var ch chan struct{}
 		if !h.quiet {
 			h.syncOut = true
 			// the answer carries the source's snapshot of this moment
 			h.run.Lines = append(h.run.Lines, "conv syncexec")
 			h.run.Obs = append(h.run.Obs, "-")
+			if h.holdSyncNext {
+				h.holdSyncNext = false
+				h.heldSync = make(chan struct{})
+				ch = h.heldSync
+				select {
+				case h.syncParked <- struct{}{}:
+				default:
+				}
+			}
 		}
 		h.mu.Unlock()
+		if ch != nil {
+			select {
+			case <-ch:
+			case <-time.After(4 * time.Second):
+			}
+		}
 	case "cli:synced":
 		h.mu.Lock()
 		if h.quiet {
@@ -417,7 +439,7 @@ func Exec(c Case) *Run {
 		copts.SkippedStates = am.S{"D"}
 		tracked = slices.DeleteFunc(tracked, func(n string) bool { return n == "D" })
 	}
-	h := &harness{run: run, src: src, parked: make(chan struct{}, 1), quiet: true, shallow: !c.messageLevel()}
+	h := &harness{run: run, src: src, parked: make(chan struct{}, 1), syncParked: make(chan struct{}, 1), quiet: true, shallow: !c.messageLevel()}
 	src.BindTracer(&srcTracer{TracerNoOp: &am.TracerNoOp{Id: "verif-src"}, h: h})
 	l, err := net.Listen("tcp4", "127.0.0.1:0")
 	if err != nil {
@@ -472,7 +494,7 @@ func Exec(c Case) *Run {
 	h.mu.Unlock()
 	run.Lines = append(run.Lines, "conv init all")
 	run.Obs = append(run.Obs, "ok")
-	settle := func() {
+	settle := func() bool {
 		// nothing in flight (as far as the harness knows) and the client has been idle for a while
 		dl := time.Now().Add(3 * time.Second)
 		for time.Now().Before(dl) {
@@ -487,9 +509,60 @@ func Exec(c Case) *Run {
 			ps := h.pendingSync
 			h.mu.Unlock()
 			if n == 0 && idle && (ps == 0 || time.Since(h.lastCliEv) > 600*time.Millisecond) {
-				return
+				return ps == 0
 			}
 			time.Sleep(3 * time.Millisecond)
+		}
+		return false
+	}
+	// the property's conclusion: every synchronised state has the source's tick (parity for shallow
+	// clocks) and the source's activity on the network machine
+	quiescent := func(where string) {
+		run.QuiescentChecks++
+		for _, n := range tracked {
+			if c.NoSchema && n == am.StateException && !nm.Has1(n) {
+				continue
+			}
+			st, mt := src.Tick(n), nm.Tick(n)
+			same := st == mt
+			if c.Shallow {
+				same = st%2 == mt%2
+			}
+			if !same {
+				run.Failures = append(run.Failures, fmt.Sprintf("%s, yet state %s has tick %d on the network machine and %d on the source (network machine %v, source %v, shallow=%v)", where, n, mt, st, nm.Time(nil), src.Time(nil), c.Shallow))
+				return
+			}
+		}
+		for i, n := range tracked {
+			if c.NoSchema && n == am.StateException && !nm.Has1(n) {
+				continue
+			}
+			if src.Is1(n) != nm.Is1(n) {
+				run.Failures = append(run.Failures, fmt.Sprintf("%s, yet state %s (index %d) is active=%v on the source and %v on the network machine (ticks %d / %d)", where, n, i, src.Is1(n), nm.Is1(n), src.Tick(n), nm.Tick(n)))
+				return
+			}
+		}
+	}
+	// a settle point inside a scenario is a quiescent moment too when the harness can tell that the
+	// server has told what it knows (the last diff it produced is the source's current snapshot, or the
+	// handshake of a reconnect handed it over) and nothing is parked
+	midCheck := func(where string) {
+		if c.SlowPush || len(run.Failures) > 0 {
+			return
+		}
+		if !settle() {
+			return
+		}
+		time.Sleep(20 * time.Millisecond)
+		if !settle() {
+			return
+		}
+		h.mu.Lock()
+		ok := !h.heldSet && !h.holdNext && h.heldSync == nil && !h.holdSyncNext && len(h.inflight) == 0 &&
+			h.pendingSync == 0 && !h.syncOut && h.lastProduced == snapKey(src.Time(nil))
+		h.mu.Unlock()
+		if ok {
+			quiescent(where)
 		}
 	}
 	var cliWG sync.WaitGroup
@@ -573,6 +646,45 @@ opsLoop:
 			h.mu.Lock()
 			h.holdNext = true
 			h.mu.Unlock()
+		case "holdsync":
+			// the window of a full sync: its answer is computed and parked on the server while the
+			// source moves on (p[1:] = the changes, each pushed by the ticker), then the answer goes out
+			settle()
+			h.mu.Lock()
+			h.holdSyncNext = true
+			select {
+			case <-h.syncParked:
+			default:
+			}
+			h.mu.Unlock()
+		case "syncwindow":
+			// wait for the parked answer, make the changes, let the answer go
+			parkedNow := false
+			select {
+			case <-h.syncParked:
+				parkedNow = true
+			case <-time.After(1500 * time.Millisecond):
+			}
+			if parkedNow {
+				run.SyncWindows++
+				for _, q := range p[1:] {
+					if len(q) >= 2 {
+						if q[0] == '+' {
+							src.Add1(st(q[1:]), nil)
+						} else {
+							src.Remove1(st(q[1:]), nil)
+						}
+						time.Sleep(12 * time.Millisecond)
+					}
+				}
+			}
+			h.mu.Lock()
+			h.holdSyncNext = false
+			if h.heldSync != nil {
+				close(h.heldSync)
+				h.heldSync = nil
+			}
+			h.mu.Unlock()
 		case "release":
 			h.mu.Lock()
 			if h.heldSet {
@@ -586,6 +698,7 @@ opsLoop:
 			cliWG.Wait()
 		case "wait":
 			settle()
+			midCheck("at a settle point inside the scenario (nothing in flight, no sync pending, the server has told what it knows)")
 		case "cut":
 			// the connection drops (every accepted conn is closed on the server side); the source may
 			// change while the client is away; the client reconnects and the handshake hands over
@@ -675,6 +788,11 @@ opsLoop:
 			h.inflight[i].held = false
 		}
 	}
+	h.holdSyncNext = false
+	if h.heldSync != nil {
+		close(h.heldSync)
+		h.heldSync = nil
+	}
 	h.mu.Unlock()
 	cliWG.Wait()
 	settle()
@@ -698,29 +816,7 @@ opsLoop:
 	}
 	_, _ = srcT, mirT
 	if left == 0 {
-		for _, n := range tracked {
-			if c.NoSchema && n == am.StateException && !nm.Has1(n) {
-				continue
-			}
-			st, mt := src.Tick(n), nm.Tick(n)
-			same := st == mt
-			if c.Shallow {
-				same = st%2 == mt%2
-			}
-			if !same {
-				run.Failures = append(run.Failures, fmt.Sprintf("the source stopped changing and nothing is in flight, yet state %s has tick %d on the network machine and %d on the source (network machine %v, source %v, shallow=%v)", n, mt, st, nm.Time(nil), src.Time(nil), c.Shallow))
-				break
-			}
-		}
-		for i, n := range tracked {
-			if c.NoSchema && n == am.StateException && !nm.Has1(n) {
-				continue
-			}
-			if src.Is1(n) != nm.Is1(n) {
-				run.Failures = append(run.Failures, fmt.Sprintf("at quiescence state %s (index %d) is active=%v on the source and %v on the network machine", n, i, src.Is1(n), nm.Is1(n)))
-				break
-			}
-		}
+		quiescent("the source stopped changing and nothing is in flight")
 	}
 	cli.Stop(ctx, nil, true)
 	srv.Stop(nil, true)
@@ -795,8 +891,16 @@ func GenCase(r *rand.Rand) Case {
 		case x < 80 && held:
 			c.Ops = append(c.Ops, "release")
 			held = false
-		case x < 86 && !held:
+		case x < 83 && !held:
 			c.Ops = append(c.Ops, "drift", "loc:add:c", "wait")
+		case x < 86 && !held && !c.SlowPush:
+			// the window of a full sync: the answer is computed, the source moves on and pushes, the
+			// client handles those pushes while the sync is still pending, then the answer arrives
+			op := "syncwindow"
+			for j, m := 0, 1+r.Intn(2); j < m; j++ {
+				op += ":" + []string{"+", "+", "-"}[r.Intn(3)] + states[r.Intn(4)]
+			}
+			c.Ops = append(c.Ops, "drift", "holdsync", "loc:add:c", op, "wait")
 		case x < 92 && !held && !c.SlowPush:
 			// the connection drops; the source may move on meanwhile
 			op := "cut"
